@@ -125,7 +125,9 @@ let rec sexp_of_rv = function
   | RBool b -> S.L [S.A "b"; S.of_int (if b then 1 else 0)]
   | REnum e -> S.L [S.A "en"; S.of_int (int_of_nat e)]
   | RTypeName t -> S.L [S.A "tn"; S.of_int (int_of_nat t)]
-  | RFloatOfInt x -> S.L [S.A "foi"; S.of_int (int_of_z x)]
+  | RFloatOfInt x ->
+    (* Float is a float32: the integer as that type holds it (exact up to 2^24, rounded beyond) *)
+    S.L [S.A "foi"; S.of_int (int_of_float (Int32.float_of_bits (Int32.bits_of_float (float_of_int (int_of_z x)))))]
   | RList l -> S.L (S.A "l" :: List.map sexp_of_rv l)
   | RObj kvs ->
     S.L (S.A "o" :: List.map (fun (k, v) -> S.L [S.of_int (int_of_nat k); sexp_of_rv v])
